@@ -374,7 +374,7 @@ func (g *gen) inputVal(name string, allowed []string, rank int) InputVal {
 	return iv
 }
 
-var stringPool = []string{"", "plain", "with \"quotes\"", "back\\slash", "new\nline", "tab\there", "cr\rlf\n", "ünï ✓ 日本", " sep ", "<html>&amp;", "\x00\x01\x1f\x7f", "\b\f", "\\u0041", "\"\"\"", "#not a comment", "\ufeffbom", "{a: 1}", "$var", "end\\"}
+var stringPool = []string{"", "plain", "with \"quotes\"", "back\\slash", "new\nline", "tab\there", "cr\rlf\n", "ünï ✓ 日本", " sep ", "<html>&amp;", "\x00\x01\x1f\x7f", "\b\f", "\\u0041", "\"\"\"", "#not a comment", "\ufeffbom", "\ufffd", "{a: 1}", "$var", "end\\"}
 
 func (g *gen) str() string {
 	if g.o.AstralStrings && g.r.Chance(1, 3) {
@@ -395,10 +395,6 @@ func (g *gen) str() string {
 				c = rune(g.r.Range(0x800, 0xd7ff))
 			default:
 				c = rune(g.r.Range(0xe000, 0xffff))
-			}
-			if c == 0xfffd {
-				// the lexer's handling of a literal U+FFFD is a finding of C07 (scanner), not of this property
-				c = 0xfffc
 			}
 			b.WriteRune(c)
 		}
@@ -689,7 +685,7 @@ func genSDef(r *hx.Rand, o genOpts) *SDef {
 		if len(g.ifaces) > 0 && r.Chance(2, 3) {
 			ifs := append([]string{}, g.ifaces...)
 			hx.Shuffle(r, ifs)
-			for _, in := range ifs[:r.Range(1, min(2, len(ifs)))] {
+			for _, in := range ifs[:r.Range(1, len(ifs))] {
 				it := d.typeByName(in)
 				ok := true
 				var copied []FieldDef
